@@ -46,44 +46,54 @@ fn sweep_validation_item(item: identity_verification::jws::JwsValidationItem<'_>
   ok
 }
 
-fn verify_variants(decode: impl Fn() -> Option<identity_verification::jws::JwsValidationItem<'static>>) {
+type DecodeFn = for<'a> fn(&Decoder, &'a [u8], Option<&'a [u8]>) -> identity_verification::jose::error::Result<identity_verification::jws::JwsValidationItem<'a>>;
+
+/// `verify` consumes the decoded item, so it is decoded afresh for every verifier/key combination.
+fn verify_variants(data: &[u8], decode: DecodeFn) {
+  let dec = Decoder::new();
   let key = fixed_jwk();
-  if let Some(item) = decode() {
+  if let Ok(item) = decode(&dec, data, None) {
     let _ = item.verify(&rejecting_verifier(), &key);
   }
-  if let Some(item) = decode() {
+  if let Ok(item) = decode(&dec, data, None) {
     let _ = item.verify(&EdDSAJwsVerifier::default(), &key);
   }
-  if let Some(item) = decode() {
+  if let Ok(item) = decode(&dec, data, None) {
     let _ = item.verify(&identity_ecdsa_verifier::EcDSAJwsVerifier::default(), &key);
   }
-  if let Some(item) = decode() {
+  if let Ok(item) = decode(&dec, data, None) {
     let mut k2 = key.clone();
     k2.set_alg("ES256");
     let _ = item.verify(&accepting_verifier(), &k2);
   }
   for jwk in JWK_SEEDS {
-    if let (Some(item), Ok(k)) = (decode(), Jwk::from_json(jwk)) {
+    if let (Ok(item), Ok(k)) = (decode(&dec, data, None), Jwk::from_json(jwk)) {
       let _ = item.verify(&EdDSAJwsVerifier::default(), &k);
     }
-    if let (Some(item), Ok(k)) = (decode(), Jwk::from_json(jwk)) {
+    if let (Ok(item), Ok(k)) = (decode(&dec, data, None), Jwk::from_json(jwk)) {
       let _ = item.verify(&identity_ecdsa_verifier::EcDSAJwsVerifier::default(), &k);
     }
   }
 }
 
+fn decode_compact_fn<'a>(d: &Decoder, data: &'a [u8], detached: Option<&'a [u8]>) -> identity_verification::jose::error::Result<identity_verification::jws::JwsValidationItem<'a>> {
+  d.decode_compact_serialization(data, detached)
+}
+
+fn decode_flattened_fn<'a>(d: &Decoder, data: &'a [u8], detached: Option<&'a [u8]>) -> identity_verification::jose::error::Result<identity_verification::jws::JwsValidationItem<'a>> {
+  d.decode_flattened_serialization(data, detached)
+}
+
 fn ep_decode_compact(data: &[u8]) -> Ep {
   let dec = Decoder::new();
-  let owned: &'static [u8] = Box::leak(data.to_vec().into_boxed_slice());
-  // (leak is bounded: inputs are small and the process is short-lived; needed for the 'static closure below)
   let mut acc = false;
   for detached in [None, Some(&b"detached payload"[..]), Some(&b""[..])] {
-    if let Ok(item) = dec.decode_compact_serialization(owned, detached) {
-      acc |= sweep_validation_item(item);
+    if let Ok(item) = dec.decode_compact_serialization(data, detached) {
+      sweep_validation_item(item);
       acc = true;
     }
   }
-  verify_variants(|| Decoder::new().decode_compact_serialization(owned, None).ok());
+  verify_variants(data, decode_compact_fn);
   if acc {
     Ep::Accepted
   } else {
@@ -93,15 +103,14 @@ fn ep_decode_compact(data: &[u8]) -> Ep {
 
 fn ep_decode_flattened(data: &[u8]) -> Ep {
   let dec = Decoder::new();
-  let owned: &'static [u8] = Box::leak(data.to_vec().into_boxed_slice());
   let mut acc = false;
   for detached in [None, Some(&b"detached payload"[..])] {
-    if let Ok(item) = dec.decode_flattened_serialization(owned, detached) {
+    if let Ok(item) = dec.decode_flattened_serialization(data, detached) {
       sweep_validation_item(item);
       acc = true;
     }
   }
-  verify_variants(|| Decoder::new().decode_flattened_serialization(owned, None).ok());
+  verify_variants(data, decode_flattened_fn);
   if acc {
     Ep::Accepted
   } else {
@@ -624,9 +633,24 @@ fn token_entry_points() -> Vec<EntryPoint> {
   ]
 }
 
+/// JWK JSON (any JSON text) wrapped into a did:jwk identifier by the harness, so that structural JSON mutation
+/// reaches `DIDJwk::parse`, `jwk()` and the did:jwk document expansion.
+fn ep_did_jwk_from_json(data: &[u8]) -> Ep {
+  let did = format!("did:jwk:{}", b64url(data));
+  ep_did_jwk_parse(did.as_bytes())
+}
+
 pub fn entry_points() -> Vec<EntryPoint> {
   let mut v = text_entry_points();
   v.extend(json_entry_points());
   v.extend(token_entry_points());
+  v.push(EntryPoint {
+    name: "DIDJwk::parse(b64url(json))",
+    kind: Kind::Json,
+    f: ep_did_jwk_from_json,
+    seeds: || sv(JWK_SEEDS),
+    prefixes: &[""],
+    must_accept: true,
+  });
   v
 }
